@@ -238,13 +238,13 @@ def run_shard(arg):
 
 def main():
     t = engine.tier()
-    variants = LAYOUTS_T if t == "thorough" else LAYOUTS_Q
+    variants = LAYOUTS_T      # both tiers: all seven layouts, both base models (seconds)
     rep = engine.Report(PID, "fault_enumeration",
                         "accepted base models (%s) x 11 text blocks (global/local declarations, parameters, invariant, select, guard, "
                         "synchronisation, update, second edge's guard and update, system) x faults {undeclared identifier, clock for "
                         "operand, token deleted, bracket deleted, stray ) ] }, semicolon deleted, side effect inserted, unterminated "
                         "comment} at every token position x layouts %s. distinct = (model, block, fault, token, layout)."
-                        % ("A" if t == "quick" else "A, B", variants))
+                        % ("A, B", variants))
     # the base models themselves must be accepted, in every layout
     w = engine.worker("fast")
     for mid, blocks in (("A", BLOCKS_A), ("B", BLOCKS_B)):
@@ -253,7 +253,7 @@ def main():
             if not X.accepted(r):
                 print("C06 generator bug: base model %s layout %s is not accepted: %s" % (mid, v, X.msgs(r)[:3]))
                 sys.exit(2)
-    shards = [(mid, b, variants) for mid in (["A"] if t == "quick" else ["A", "B"]) for b in BLOCKS_A]
+    shards = [(mid, b, variants) for mid in ["A", "B"] for b in BLOCKS_A]
     for res in engine.pmap(run_shard, shards):
         rep.merge(res)
     rep.assumptions = ["Python's ElementTree over the same bytes is the independent DOM; lines are the '\\n'-separated lines of the "
